@@ -60,6 +60,7 @@ pub fn sim_spec() -> impl Strategy<Value = SimSpec> {
 			async_api: (children.len() + spawn_fail.len() + kill_fail.len()) % 3 == 1,
 			// (a suspending hook is only generated where the reference model accounts for it: C09)
 			hook_delay: 0,
+			kill_esrch: kill_fail.first().map_or(false, |i| i % 2 == 1),
 			children,
 			spawn_fail,
 			kill_fail,
